@@ -202,3 +202,119 @@ func TestProp_C12_LongBlocks(t *testing.T) {
 }
 
 func init() { reg("C12longblocks", runC12Blocks) }
+
+// ---- C12 (two real parties): user calls that the state does not expect, and the abort that follows ----
+//
+// With a reference peer the question "is the *peer* still in step?" cannot be asked. Here both ends are otr3
+// conversations. After any sequence of starts, answers, aborts and deliveries - including calls made in states
+// that do not expect them, which reset one side without telling the other - a user who calls
+// AbortAuthentication and then starts afresh must get a run that succeeds with equal secrets: the explicit
+// abort is what brings the two state machines back in step.
+
+type SyncScript struct {
+	Cfg SessCfg `json:"cfg"`
+	Ops []SOp   `json:"ops"` // smp ans abort dl flush drop
+	Who int     `json:"who"` // who aborts and starts the final run
+}
+
+func runC12Sync(sc *SyncScript) *sim.Outcome {
+	o := &sim.Outcome{}
+	cfg := sc.Cfg
+	cfg.FragA, cfg.FragB = 0, 0
+	s := newSess(&SessScript{Cfg: cfg}, o)
+	if !s.Handshake(cfg.Starter) {
+		o.Discard = true
+		return o
+	}
+	unexpected := 0
+	for _, op := range sc.Ops {
+		switch op.K {
+		case "ansx":
+			// an answer although nobody asked (or although we are the one who asked)
+			c := s.W.SMPAnswer(op.W&1, s.secrets[0])
+			if c.Err != nil {
+				unexpected++
+			}
+		case "smp", "ans":
+			op.X = 0
+			s.Exec(op)
+		default:
+			s.Exec(op)
+		}
+		for p := 0; p < 2; p++ {
+			if succ, _, _, _, _ := smpFlags(s.W.P[p].SMP); succ && op.K != "ans" && op.K != "flush" && op.K != "dl" {
+				return o.Fail("C12/false-success", "%s reported success during a call that cannot complete a run (%s)", s.W.P[p].Name, op.K)
+			}
+		}
+	}
+	who := sc.Who & 1
+	s.W.SMPAbort(who)
+	s.Exec(SOp{K: "flush"})
+	n0, n1 := len(s.W.P[0].SMP), len(s.W.P[1].SMP)
+	s.asked = [2]bool{}
+	s.W.SMPStart(who, "", s.secrets[0])
+	s.Exec(SOp{K: "flush"})
+	if !s.asked[1-who] {
+		return o.Fail("C12/stuck", "after %v, an abort by %s's user and a fresh start, the peer was not asked for the secret (peer events %v, own %v)", opNames(sc.Ops), s.W.P[who].Name, s.W.P[1-who].SMP[[2]int{n0, n1}[1-who]:], s.W.P[who].SMP[[2]int{n0, n1}[who]:])
+	}
+	s.W.SMPAnswer(1-who, s.secrets[0])
+	s.Exec(SOp{K: "flush"})
+	a, _, _, _, _ := smpFlags(s.W.P[0].SMP[n0:])
+	b, _, _, _, _ := smpFlags(s.W.P[1].SMP[n1:])
+	if !a || !b {
+		return o.Fail("C12/stuck", "after %v, an abort by %s's user and a fresh start, the run with equal secrets did not succeed on both sides (A %v, B %v)", opNames(sc.Ops), s.W.P[who].Name, s.W.P[0].SMP[n0:], s.W.P[1].SMP[n1:])
+	}
+	if unexpected > 0 {
+		o.Class("call-in-unexpecting-state")
+	}
+	o.NonTrivial = len(sc.Ops) > 0
+	return o
+}
+
+func opNames(ops []SOp) []string {
+	var out []string
+	for _, op := range ops {
+		out = append(out, fmt.Sprintf("%s/%d", op.K, op.W&1))
+	}
+	return out
+}
+
+func init() { reg("C12sync", runC12Sync) }
+
+// TestProp_C12_Sync: every sequence of up to 4 steps over {start, answer (asked or not), abort, deliver all,
+// lose what is in flight} by either user, then abort + fresh run by either user; both versions.
+func TestProp_C12_Sync(t *testing.T) {
+	si, sn := sim.Shard()
+	var alphabet []SOp
+	for w := 0; w < 2; w++ {
+		alphabet = append(alphabet, SOp{K: "smp", W: w}, SOp{K: "ansx", W: w}, SOp{K: "abort", W: w})
+	}
+	alphabet = append(alphabet, SOp{K: "flush"}, SOp{K: "drop", W: 0}, SOp{K: "drop", W: 1})
+	depth := 3
+	if sim.Thorough() {
+		depth = 4
+	}
+	idx := 0
+	for _, v := range []int{3, 2} {
+		var rec func(prefix []SOp)
+		rec = func(prefix []SOp) {
+			for who := 0; who < 2; who++ {
+				idx++
+				if idx%sn == si {
+					sim.Judge(t, "C12sync", &SyncScript{Cfg: SessCfg{V: v, SeedA: 1260, SeedB: 1361, KeyA: 0, KeyB: 3}, Ops: append([]SOp{}, prefix...), Who: who})
+				}
+			}
+			if len(prefix) == depth {
+				return
+			}
+			for _, a := range alphabet {
+				if len(prefix) == 0 && a.W == 1 && !sim.Thorough() {
+					continue // by symmetry: the first user action is A's (the final abort is tried from both sides)
+				}
+				rec(append(prefix, a))
+			}
+		}
+		rec(nil)
+	}
+	sim.MarkCompleted("C12sync", true)
+}
